@@ -116,7 +116,9 @@ def enable_logging_for_some_shards():
     LOGGING_ON[0] = True
 
 
-def make_monitored_daemon_class(base=None):
+def make_monitored_daemon_class(base=None, hooks_on_instance=False):
+    """hooks_on_instance: the application's handshake validator and disconnect hook are not methods of a Daemon subclass but callables
+    assigned on the daemon instance after it was constructed (the other way applications install them)"""
     P = pyro()
     base = base or P.server.Daemon
 
@@ -132,12 +134,15 @@ def make_monitored_daemon_class(base=None):
             self.conn_refs = {}                 # connection serial -> weakref to the server-side SocketConnection
             self.reply_annotations = None       # dict: sent with every response (the documented Daemon.annotations() override point)
             super().__init__(*a, **k)
+            if hooks_on_instance:
+                self.validateHandshake = self._monitored_validate
+                self.clientDisconnect = self._monitored_disconnect
 
         def annotations(self):
             # (the application's own long-lived dict is handed out, not a copy: that is what a subclass returning a member does)
             return self.reply_annotations if self.reply_annotations else {}
 
-        def validateHandshake(self, conn, data):
+        def _monitored_validate(self, conn, data):
             with MonitoredDaemon._serial_lock:
                 serial = next(MonitoredDaemon._serials)
             # never key connections by id(conn): ids are reused; stamp a serial on the object
@@ -148,11 +153,14 @@ def make_monitored_daemon_class(base=None):
                 return self.hs_validator(conn, data)
             return "hello"
 
-        def clientDisconnect(self, conn):
+        def _monitored_disconnect(self, conn):
             self.evlog.add("disconnect", getattr(conn, "_vserial", None))
             if self.on_disconnect is not None:
                 self.on_disconnect(conn)
 
+    if not hooks_on_instance:
+        MonitoredDaemon.validateHandshake = MonitoredDaemon._monitored_validate
+        MonitoredDaemon.clientDisconnect = MonitoredDaemon._monitored_disconnect
     return MonitoredDaemon
 
 
@@ -173,7 +181,8 @@ FORCED_VARIANT = None
 
 
 def variant_for(seed, *salt):
-    return core.h64(repr((seed,) + salt)) % len(VARIANTS)
+    # (the upper half of the range: the same configurations, with the application's hooks assigned on the daemon instance)
+    return core.h64(repr((seed,) + salt)) % (2 * len(VARIANTS))
 
 
 _ssl_files = None
@@ -218,15 +227,19 @@ class Fixture:
         self.variant = "unvaried"
         if FORCED_VARIANT is not None:
             variant = FORCED_VARIANT      # replaying a recorded witness: the same configuration variant
+        hooks_on_instance = False
         if variant is not None:
-            LAST_VARIANT = variant % len(VARIANTS)
+            LAST_VARIANT = variant % (2 * len(VARIANTS))
             self.variant, vcfg = VARIANTS[variant % len(VARIANTS)]
+            hooks_on_instance = LAST_VARIANT >= len(VARIANTS)
+            if hooks_on_instance:
+                self.variant += "+hooks-on-instance"
             for k, v in dict(VARIANT_DEFAULTS, **vcfg).items():
                 setattr(config, k, v)
         for k, v in cfg.items():
             setattr(config, k, v)
         self.servertype = servertype
-        cls = daemon_cls or make_monitored_daemon_class()
+        cls = daemon_cls or make_monitored_daemon_class(hooks_on_instance=hooks_on_instance)
         kw = {}
         if interface is not None:
             kw["interface"] = interface
